@@ -71,6 +71,10 @@ def main():
     res.append(semantic('mv2lean.py','up coeff .25',[(CL,".5 ^ ((x**2)*self.einf)",".25 ^ ((x**2)*self.einf)")]))
     res.append(semantic('mv2lean.py','einf sign',[(CL,"einf = en + ep","einf = en - ep")]))
     res.append(semantic('mv2lean.py','E0 swapped',[(CL,"E0 = einf ^ eo","E0 = eo ^ einf")]))
+    res.append(harmless('closed2lean.py','shirokov Ck commuted',[(L,"Ck = (N / k) * Uk.value[0]","Ck = Uk.value[0] * (N / k)")]))
+    res.append(semantic('closed2lean.py','shirokov adjU * U',[(L,"Uk = U * adjU","Uk = adjU * U")]))
+    res.append(semantic('closed2lean.py','shirokov k / N',[(L,"Ck = (N / k) * Uk.value[0]","Ck = (k / N) * Uk.value[0]")]))
+    res.append(semantic('closed2lean.py','shirokov range(1, N+1)',[(L,"for k in range(1, N):\n                Ck","for k in range(1, N + 1):\n                Ck")]))
     res.append(semantic('closed2lean.py','n=4 grades (2,4)',[(L,"mv_mul_mv_conj(3, 4)","mv_mul_mv_conj(2, 4)")]))
     res.append(semantic('closed2lean.py','n=5 factor 3',[(L,"2 * mv_combo_op(1, 4)","3 * mv_combo_op(1, 4)")]))
     res.append(semantic('loops2lean.py','start a = bitmap_a',[(H,"a = bitmap_a >> 1","a = bitmap_a")]))
